@@ -203,3 +203,45 @@ def run(chk):
                 raise Violation(f"init_rar sizes[{kind}]", str(got), str(exp))
         return "candidate / selected sizes of the right family"
     chk.run("C16.R6", f"{RAR}:init_rar (sizes)", {}, go_sizes, construct="init_rar sizes")
+
+    run_solve_trigger(chk)
+
+# ---------------------------------------------------------------------------------------------------------------------
+# R7: how the training loop drives the refinement ("steps happen exactly at iterations start + k * update_every" needs the
+# trigger to be asked once per iteration, with the index of that iteration)
+# ---------------------------------------------------------------------------------------------------------------------
+def run_solve_trigger(chk):
+    from ._solve_common import SolveAnalysis
+    from ..solveenv import SOLVE, GenToken
+    chk.rule("C16.R7", "solve calls trigger_rar once per iteration with that iteration's index (the index at which the loss is "
+                       "recorded), the generator advanced by this iteration's draw, and keeps the generator it returns", floor=2)
+    for validation in (False, True):
+        def go(validation=validation):
+            calls = []
+
+            def trigger_stub(i, loss, params, data, *step_fns):
+                calls.append((i, data))
+                return loss, params, GenToken(f"rar({data._name})", data._make_batch, data._step, data._attrs)
+
+            def init_stub(data):
+                return data, Sym('rar_step_true'), Sym('rar_step_false')
+            A = SolveAnalysis(chk.repo, validation=validation, aux=False,
+                              overrides={(SOLVE, 'trigger_rar'): trigger_stub, (SOLVE, 'init_rar'): init_stub})
+            chk.files.update(A.E.w.files)
+            calls.clear()
+            c, out = A.step()
+            if len(calls) != 1:
+                raise Violation("trigger_rar calls", f"{len(calls)} calls in one iteration", "exactly one")
+            i_seen, data_seen = calls[0]
+            i0 = c[0]
+            if lift(i_seen) != lift(i0):
+                raise Violation("trigger_rar iteration index", f"trigger_rar is called with {lift(i_seen)} during iteration {lift(i0)}",
+                                f"{lift(i0)} (the index of the iteration, at which its loss is recorded)")
+            d_in = c[4].fields['data']
+            if not (isinstance(data_seen, GenToken) and data_seen._name == d_in._name and data_seen._step == d_in._step + 1):
+                raise Violation("trigger_rar generator", f"{data_seen!r}", f"the generator after this iteration's draw <{d_in._name}+{d_in._step + 1}>")
+            d_out = out[4].fields['data']
+            if not (isinstance(d_out, GenToken) and d_out._name == f"rar({d_in._name})"):
+                raise Violation("carried generator", f"{d_out!r}", "the generator returned by trigger_rar")
+            return "one call per iteration, index i, advanced generator in, returned generator carried"
+        chk.run("C16.R7", f"{SOLVE}:solve._one_iteration (Trigger RAR)", {"validation": validation}, go, construct="trigger call in the loop")
